@@ -21,6 +21,7 @@ from ..libenv import lib
 NAME = "C20"
 
 GEO = ("Point", "Line", "Plane", "Segment", "HalfLine", "ConvexPolygon", "ConvexPolyhedron")
+OWNING = ("Point", "Segment", "HalfLine", "ConvexPolygon", "ConvexPolyhedron")
 PAIR_Q = ("inter_f", "inter_m", "in", "distance", "angle", "parallel", "orthogonal", "eq")
 AUX_Q = ("aux_segment_from_points", "aux_points_in_a_line")  # public helpers of calc.aux_calc, operands: Points
 NESTED_Q = ("inter_nested",)  # intersection(intersection(a, b), c): an uncopied result is fed straight into a query
@@ -306,6 +307,10 @@ class GenModel(object):
         else:
             how = "move"
         op = {"op": "MUTATE", "i": i, "how": how}
+        if how == "move" and e["t"] in OWNING and r.random() < 0.35 and len(self.ent) < 15:
+            rid = self.nid("m")
+            op["ret"] = rid
+            self.ent[rid] = {"t": e["t"], "kind": "copy", "mut": True, "from": []}
         if how == "internal":
             # the caller edits, in place, a Point / Vector it reached through the
             # composite's public attributes (poly.points[i].x = ..., seg.start_point.move(v))
@@ -492,6 +497,7 @@ class World(object):
     def __init__(self, cold=False):
         self.e = {}  # id -> {"obj", "ver", "kind"}
         self.cold = cold
+        self.last_return = None
 
     def get(self, i):
         e = self.e.get(i)
@@ -529,6 +535,15 @@ class World(object):
             how = op["how"]
             if how == "move":
                 r = call(lambda: o.move(G.Vector(*[float(F(x)) for x in op["v"]])))
+                # the object move hands out: for the owning types (and Point) it is built
+                # from the receiver's data and must own its own copy (K6); it stays in the
+                # heap under the name the op gives it, so later mutations of the receiver
+                # must leave it alone (K2) and vice versa. Line.move / Plane.move share
+                # state with the receiver by design (exempt).
+                self.last_return = None
+                if op.get("ret") and not isinstance(r, Raised) and tname(r) in OWNING and r is not o:
+                    self.last_return = (op["ret"], r)
+                    self.put(op["ret"], r, "moved", [op["i"]])
             elif how == "internal":
                 def edit():
                     t = o
@@ -809,6 +824,13 @@ def execute(history, opts=None):
             before_t = W.e.get(tgt, {}).get("obj")
             out = W.apply_structural(op)
             after = _snaps(W)
+            if out != "noop" and W.last_return is not None and op.get("ret") == W.last_return[0]:
+                rid, robj = W.last_return
+                W.last_return = None
+                ctx.count("K6_checks")
+                shared = set(mutable_ids(robj)) & set(mutable_ids(before_t))
+                if shared:
+                    ctx.vio(step, "K6", "move_return_shares/%s" % tname(before_t), "move", "the object returned by move shares %d mutable sub-objects with the receiver" % len(shared), {"target": tgt, "returned": rid})
             if out != "noop":
                 ctx.count("mutate:%s:%s" % (tname(before_t), op["how"]))
                 ctx.count("K2_checks")
